@@ -1027,6 +1027,29 @@ Proof.
 Qed.
 
 (* what a node has compacted away it had committed, and it still holds at least one entry *)
+(* LEADER APPEND-ONLY: a node that is leader of term t after ops1 and again (still, or anew) leader of the same
+   term after ops1 ++ ops2 has only appended in between: its earlier log is a prefix of its later log.  (The log
+   of the leader of a term is the ledger of that term, and ledgers only grow.) *)
+Theorem leader_append_only : forall ops1 ops2 i,
+  let s1 := grun cfg ru ops1 in
+  let s2 := grun cfg ru (ops1 ++ ops2) in
+  i < n_nodes cfg ->
+  rl (nd_of s1 i) = Leader -> rl (nd_of s2 i) = Leader -> term (nd_of s1 i) = term (nd_of s2 i) ->
+  firstn (length (log (nd_of s1 i))) (log (nd_of s2 i)) = log (nd_of s1 i).
+Proof.
+  intros ops1 ops2 i s1 s2 Hi Hr1 Hr2 Ht.
+  destruct sfi_init as [a0 H0].
+  destruct (sfi_run_from ops1 _ _ _ H0) as [gl1 [a1 [[HF1 HS1] _]]].
+  destruct (sfi_run_from ops2 _ _ _ (conj HF1 HS1)) as [gl2 [a2 [[HF2 HS2] [E2 [L2 P2]]]]].
+  assert (Es2 : run_from cfg ru (run_from cfg ru (init_sys cfg) ops1) ops2 = s2)
+    by (unfold s2; rewrite (grun_run_from cfg ru), (run_from_app cfg ru); reflexivity).
+  assert (Es1 : run_from cfg ru (init_sys cfg) ops1 = s1) by reflexivity.
+  rewrite Es2 in *. rewrite Es1 in *.
+  destruct HF1 as [_ [_ [_ [HM1 _]]]]. destruct HF2 as [_ [_ [_ [HM2 _]]]].
+  rewrite (LogMatch.lm_L3 _ _ _ _ HM1 i Hi Hr1), (LogMatch.lm_L3 _ _ _ _ HM2 i Hi Hr2), <- Ht.
+  apply E2.
+Qed.
+
 Theorem compaction_within_commit : forall ops i, i < n_nodes cfg ->
   let s := grun cfg ru ops in base (nd_of s i) <= commit (nd_of s i).
 Proof.
